@@ -9,6 +9,7 @@
 //   - counts handler calls and dial attempts after Close,
 //   - closes the peer side and takes a goroutine census (runtime.Stack filtered to frames of the
 //     client library, polled up to 2 s).
+//
 // Cases run in child processes (sequentially inside one child, so the census sees one case at a
 // time, and a panic of a library goroutine - F10 - costs one child, not the run).
 package main
@@ -29,12 +30,15 @@ import (
 	"sort"
 	"strings"
 	"sync"
+	"sync/atomic"
 	"time"
 
 	ierrors "github.com/aptpod/iscp-go/errors"
 	"github.com/aptpod/iscp-go/iscp"
 	"github.com/aptpod/iscp-go/message"
 	"github.com/aptpod/iscp-go/verifhooks"
+
+	uuid "github.com/google/uuid"
 
 	"verif/internal/broker"
 	"verif/internal/connbroker"
@@ -44,23 +48,25 @@ import (
 )
 
 type caseIn struct {
-	Ups         int    `json:"ups"`
-	Downs       int    `json:"downs"`
-	CloseFirst  []int  `json:"close_first,omitempty"` // ordinals of streams closed before the connection
-	Overlap     []int  `json:"overlap,omitempty"`     // ordinals of streams closed by OverlapN overlapping Close calls (the broker withholds the first close response until all calls were issued)
-	OverlapN    int    `json:"overlap_n,omitempty"`
-	PendingReply bool  `json:"pending_reply,omitempty"` // SendCallAndWaitReplayCall already ACKED and waiting for its reply, ReceiveCall and ReceiveReplyCall consumers waiting - all with contexts WITHOUT deadline
-	Queued      int    `json:"queued,omitempty"`        // every downstream holds that many unread metadata items and unread chunks at (stream / connection) Close; afterwards ReadMetadata / ReadDataPoints are called 16 times each
-	E2EPending  int    `json:"e2e_pending,omitempty"`   // with outage dialfail/dialok: that many concurrent SendCall / SendReplyCall / SendCallAndWaitReplayCall callers are waiting for Connected inside send() when Close is called
-	CallFlood   int    `json:"call_flood,omitempty"` // that many DownstreamCall and UpstreamCallAck messages arrive while Close waits behind a pending SendBaseTime (no answer, 300 ms context)
-	Buffered    []int  `json:"buffered,omitempty"`    // ordinals of streams with unflushed data / unacknowledged reads at Close
-	PendingRead bool   `json:"pending_read,omitempty"`
-	PendingCall bool   `json:"pending_call,omitempty"`
-	Closes      int    `json:"closes"` // number of Close calls
-	Concurrent  bool   `json:"concurrent,omitempty"`
-	Outage      string `json:"outage,omitempty"` // "" | dialok (redial succeeds while Close waits) | dialfail | settled (outage survived before Close) | guard (outage detected while wireConnMu is held: reconnect() must refuse after Close)
-	SlowWriteUs int    `json:"slow_write_us,omitempty"`
-	FullMatrix  bool   `json:"full_matrix,omitempty"` // include the entries that wait in waitUntil (F5)
+	Ups           int    `json:"ups"`
+	Downs         int    `json:"downs"`
+	CloseFirst    []int  `json:"close_first,omitempty"` // ordinals of streams closed before the connection
+	Overlap       []int  `json:"overlap,omitempty"`     // ordinals of streams closed by OverlapN overlapping Close calls (the broker withholds the first close response until all calls were issued)
+	OverlapN      int    `json:"overlap_n,omitempty"`
+	PendingReply  bool   `json:"pending_reply,omitempty"`  // SendCallAndWaitReplayCall already ACKED and waiting for its reply, ReceiveCall and ReceiveReplyCall consumers waiting - all with contexts WITHOUT deadline
+	Queued        int    `json:"queued,omitempty"`         // every downstream holds that many unread metadata items and unread chunks at (stream / connection) Close; afterwards ReadMetadata / ReadDataPoints are called 16 times each
+	E2EPending    int    `json:"e2e_pending,omitempty"`    // with outage dialfail/dialok: that many concurrent SendCall / SendReplyCall / SendCallAndWaitReplayCall callers are waiting for Connected inside send() when Close is called
+	StreamPending int    `json:"stream_pending,omitempty"` // with outage dialfail/dialok: per open upstream that many writers blocked in WriteDataPoints (no flush loop during the outage; context.Background() and 30 s contexts alternate) and one Flush caller, per open downstream one ReadDataPoints and one ReadMetadata consumer, all pending when Close is called
+	RaceWriters   int    `json:"race_writers,omitempty"`   // live connection: that many writers are in flight on upstream 0 while its flush loop is stalled (slow sent-storage Store) and Upstream.Close is called from another goroutine
+	CallFlood     int    `json:"call_flood,omitempty"`     // that many DownstreamCall and UpstreamCallAck messages arrive while Close waits behind a pending SendBaseTime (no answer, 300 ms context)
+	Buffered      []int  `json:"buffered,omitempty"`       // ordinals of streams with unflushed data / unacknowledged reads at Close
+	PendingRead   bool   `json:"pending_read,omitempty"`
+	PendingCall   bool   `json:"pending_call,omitempty"`
+	Closes        int    `json:"closes"` // number of Close calls
+	Concurrent    bool   `json:"concurrent,omitempty"`
+	Outage        string `json:"outage,omitempty"` // "" | dialok (redial succeeds while Close waits) | dialfail | settled (outage survived before Close) | guard (outage detected while wireConnMu is held: reconnect() must refuse after Close)
+	SlowWriteUs   int    `json:"slow_write_us,omitempty"`
+	FullMatrix    bool   `json:"full_matrix,omitempty"` // include the entries that wait in waitUntil (F5)
 }
 
 type resultOut struct {
@@ -77,6 +83,7 @@ type resultOut struct {
 	CloseReqMax   int      `json:"close_req_max"`
 	OverlapRets   [][]int  `json:"overlap_rets,omitempty"`
 	PendingMeta   int      `json:"pending_meta_ret,omitempty"`
+	RaceRets      []int    `json:"race_rets,omitempty"` // writers racing Upstream.Close, then the Flush, then the Close itself
 	GuardMissed   bool     `json:"guard_window_missed,omitempty"`
 	Leaked        int      `json:"leaked"`
 	LeakedWhere   []string `json:"leaked_where,omitempty"`
@@ -151,6 +158,19 @@ var argsRe = regexp.MustCompile(`(\([^()]*\)| in goroutine \d+)$`)
 
 var knownLeaked = map[string]bool{}
 
+// slowStorage delays Store: the upstream's flush loop sits in it (holding the stream lock) for that long.
+type slowStorage struct {
+	iscp.VerifSentStorage
+	delay atomic.Int64
+}
+
+func (s *slowStorage) Store(ctx context.Context, id uuid.UUID, seq uint32, d iscp.DataPointGroups) error {
+	if d := s.delay.Load(); d > 0 {
+		time.Sleep(time.Duration(d))
+	}
+	return s.VerifSentStorage.Store(ctx, id, seq, d)
+}
+
 type strm struct {
 	label int
 	down  bool
@@ -176,9 +196,14 @@ func runCase(c *caseIn) (res resultOut) {
 		cb.WriteDelay.Store(int64(time.Duration(c.SlowWriteUs) * time.Microsecond))
 	}
 	var conn *iscp.Conn
+	slow := &slowStorage{VerifSentStorage: iscp.VerifNewInmemSentStorage()}
+	storageOpt := func(*iscp.ConnConfig) {}
+	if c.RaceWriters > 0 {
+		storageOpt = iscp.VerifWithSentStorage(slow)
+	}
 	if guarded(3*time.Second, func() error {
 		var err error
-		conn, err = iscp.Connect(cb.Address, broker.TransportName, iscp.WithConnPingInterval(pingI), iscp.WithConnPingTimeout(pingT),
+		conn, err = iscp.Connect(cb.Address, broker.TransportName, iscp.WithConnPingInterval(pingI), iscp.WithConnPingTimeout(pingT), storageOpt,
 			iscp.WithConnDisconnectedEventHandler(iscp.DisconnectedEventHandlerFunc(func(*iscp.DisconnectedEvent) {
 				mu.Lock()
 				disc++
@@ -224,7 +249,11 @@ func runCase(c *caseIn) (res resultOut) {
 			defer cancel()
 			var err error
 			if !down {
-				s.up, err = conn.OpenUpstream(ctx, fmt.Sprintf("s%d", l), iscp.WithUpstreamFlushPolicyNone(), iscp.WithUpstreamCloseTimeout(300*time.Millisecond),
+				qos := message.QoSUnreliable
+				if (c.StreamPending > 0 || c.RaceWriters > 0) && i%2 == 1 {
+					qos = message.QoSReliable
+				}
+				s.up, err = conn.OpenUpstream(ctx, fmt.Sprintf("s%d", l), iscp.WithUpstreamFlushPolicyNone(), iscp.WithUpstreamCloseTimeout(300*time.Millisecond), iscp.WithUpstreamQoS(qos),
 					iscp.WithUpstreamClosedEventHandler(iscp.UpstreamClosedEventHandlerFunc(func(e *iscp.UpstreamClosedEvent) { ce(e.Err) })))
 			} else {
 				s.dn, err = conn.OpenDownstream(ctx, []*message.DownstreamFilter{message.NewDownstreamFilterAllFor(fmt.Sprintf("n%d", l))},
@@ -254,7 +283,8 @@ func runCase(c *caseIn) (res resultOut) {
 		}
 		return false
 	}
-	closedFirst = func(i int) bool { return isIn(c.CloseFirst, i) || isIn(c.Overlap, i) }
+	raceStream := func(i int) bool { return c.RaceWriters > 0 && c.Outage == "" && i == 0 && c.Ups > 0 }
+	closedFirst = func(i int) bool { return isIn(c.CloseFirst, i) || isIn(c.Overlap, i) || raceStream(i) }
 	// buffered data: an unflushed write / a consumed chunk whose result is not yet acknowledged
 	seq := uint32(0)
 	for i, s := range streams {
@@ -318,6 +348,65 @@ func runCase(c *caseIn) (res resultOut) {
 			return s.up.Close(ctx)
 		})
 		ev(fmt.Sprintf("EStreamClose %d", s.label), fmt.Sprintf("EStreamCloseResp %d", s.label))
+	}
+	// writers in flight on a live upstream whose flush loop is stalled, and Upstream.Close from another goroutine
+	if len(streams) > 0 && raceStream(0) && !isIn(c.CloseFirst, 0) && !isIn(c.Overlap, 0) {
+		s := streams[0]
+		did := &message.DataID{Name: "d", Type: "t"}
+		wr := func(ctx context.Context, n int) int {
+			return classify(s.up.WriteDataPoints(ctx, did, &message.DataPoint{ElapsedTime: time.Duration(100 + n), Payload: []byte{byte(n)}}))
+		}
+		slow.delay.Store(int64(80 * time.Millisecond))
+		guarded(time.Second, func() error {
+			return s.up.WriteDataPoints(context.Background(), did, &message.DataPoint{ElapsedTime: 99, Payload: []byte{9}})
+		})
+		flushCh := make(chan int, 1)
+		go func() {
+			ctx, cancel := context.WithTimeout(context.Background(), 2*time.Second)
+			defer cancel()
+			flushCh <- classify(s.up.Flush(ctx))
+		}()
+		time.Sleep(10 * time.Millisecond) // the flush loop sits in Store, holding the stream lock
+		wch := make([]chan int, c.RaceWriters)
+		for k := range wch {
+			wch[k] = make(chan int, 1)
+			go func(k int) {
+				defer func() {
+					if x := recover(); x != nil {
+						wch[k] <- 8
+					}
+				}()
+				if k%2 == 0 {
+					wch[k] <- wr(context.Background(), k)
+				} else {
+					ctx, cancel := context.WithTimeout(context.Background(), 30*time.Second)
+					defer cancel()
+					wch[k] <- wr(ctx, k)
+				}
+			}(k)
+		}
+		time.Sleep(10 * time.Millisecond) // every writer has passed the entry guards and waits for the loop
+		closeCh := make(chan int, 1)
+		go func() {
+			ctx, cancel := context.WithTimeout(context.Background(), 2*time.Second)
+			defer cancel()
+			closeCh <- classify(s.up.Close(ctx))
+		}()
+		dl := time.After(4 * time.Second)
+		get := func(ch chan int) int {
+			select {
+			case v := <-ch:
+				return v
+			case <-dl:
+				return 7
+			}
+		}
+		for _, ch := range wch {
+			res.RaceRets = append(res.RaceRets, get(ch))
+		}
+		res.RaceRets = append(res.RaceRets, get(flushCh), get(closeCh))
+		slow.delay.Store(0)
+		ev(fmt.Sprintf("EWrite %d", s.label), fmt.Sprintf("EStreamClose %d", s.label), fmt.Sprintf("EStreamCloseResp %d", s.label))
 	}
 	// overlapping Close calls of one stream: the first close response is withheld until every call was issued
 	for i, s := range streams {
@@ -503,8 +592,49 @@ func runCase(c *caseIn) (res resultOut) {
 			}()
 			pends = append(pends, p)
 		}
-		if c.E2EPending > 0 {
-			time.Sleep(15 * time.Millisecond) // every caller waits for Connected inside send()
+		if c.StreamPending > 0 {
+			bg := func(k int) (context.Context, context.CancelFunc) {
+				if k%2 == 0 {
+					return context.Background(), func() {}
+				}
+				return context.WithTimeout(context.Background(), 30*time.Second)
+			}
+			mkp := func(api, label, k int, f func(ctx context.Context) error) {
+				p := pend{api, label, make(chan int, 1)}
+				go func() {
+					defer func() {
+						if x := recover(); x != nil {
+							p.ch <- 8
+						}
+					}()
+					ctx, cancel := bg(k)
+					defer cancel()
+					p.ch <- classify(f(ctx))
+				}()
+				pends = append(pends, p)
+			}
+			for i, s := range streams {
+				if closedFirst(i) {
+					continue
+				}
+				s := s
+				if !s.down {
+					// no flush loop exists until the stream resumes: every writer and every Flush caller waits
+					for k := 0; k < c.StreamPending; k++ {
+						k := k
+						mkp(9, s.label, k, func(ctx context.Context) error {
+							return s.up.WriteDataPoints(ctx, &message.DataID{Name: "d", Type: "t"}, &message.DataPoint{ElapsedTime: time.Duration(200 + k), Payload: []byte{1}})
+						})
+					}
+					mkp(10, s.label, 0, func(ctx context.Context) error { return s.up.Flush(ctx) })
+				} else {
+					mkp(12, s.label, 0, func(ctx context.Context) error { _, err := s.dn.ReadDataPoints(ctx); return err })
+					mkp(13, s.label, 1, func(ctx context.Context) error { _, err := s.dn.ReadMetadata(ctx); return err })
+				}
+			}
+		}
+		if c.E2EPending > 0 || c.StreamPending > 0 {
+			time.Sleep(15 * time.Millisecond) // every caller waits: for Connected inside send(), for a flush loop, for data
 		}
 		ev("ELinkDown", "EDetect", "ELoop")
 		for i, s := range streams {
@@ -694,12 +824,14 @@ func runCase(c *caseIn) (res resultOut) {
 	time.Sleep(20 * time.Millisecond) // stream contexts are cancelled by watcher goroutines
 
 	// ---- pending operations return
+	pendDeadline := time.After(3 * time.Second) // one watchdog for all of them
 	for _, p := range pends {
 		var cl int
 		select {
 		case cl = <-p.ch:
-		case <-time.After(3 * time.Second):
+		case <-pendDeadline:
 			cl = 7
+			pendDeadline = time.After(time.Millisecond)
 		}
 		if p.stream >= 0 {
 			res.StreamMatrix = append(res.StreamMatrix, [3]int{p.stream, p.api, cl})
@@ -1160,8 +1292,14 @@ func genRandom(r *rng.R) *caseIn {
 		if (c.Outage == "dialfail" || c.Outage == "dialok") && r.Chance(1, 2) {
 			c.E2EPending = 20 + r.Intn(31)
 		}
+		if (c.Outage == "dialfail" || c.Outage == "dialok") && r.Chance(1, 2) {
+			c.StreamPending = 1 + r.Intn(8)
+		}
 	} else if r.Chance(1, 6) {
 		c.CallFlood = 9 + r.Intn(12)
+	}
+	if c.Outage == "" && c.Ups > 0 && r.Chance(1, 6) {
+		c.RaceWriters = 1 + r.Intn(8)
 	}
 	if c.Outage == "" {
 		if r.Chance(1, 5) {
@@ -1232,6 +1370,13 @@ func main() {
 				add(&caseIn{Ups: sh[0], Downs: sh[1], Closes: 1, Outage: "settled"}, "after-outage")
 			}
 			add(&caseIn{Ups: sh[0], Downs: sh[1], Closes: 1, Outage: "dialfail"}, "close-while-dial-fails")
+			if sh[0]+sh[1] > 0 {
+				add(&caseIn{Ups: sh[0], Downs: sh[1], Closes: 1, Outage: "dialfail", StreamPending: 1 + 7*(sh[0]%2)}, "stream-calls-pending-during-outage")
+				add(&caseIn{Ups: sh[0], Downs: sh[1], Closes: 2, Concurrent: true, Outage: "dialok", StreamPending: 4}, "stream-calls-pending-during-outage")
+			}
+			if sh[0] > 0 {
+				add(&caseIn{Ups: sh[0], Downs: sh[1], Closes: 1, RaceWriters: 1 + 3*sh[0]}, "writers-racing-stream-close")
+			}
 			add(&caseIn{Ups: sh[0], Downs: sh[1], Closes: 1 + sh[1]%2, Outage: "dialfail", E2EPending: 20 + 6*(sh[0]+sh[1])}, "e2e-pending-during-outage")
 			add(&caseIn{Ups: sh[0], Downs: sh[1], Closes: 1 + (sh[0]+sh[1])%2, Concurrent: sh[1] > 1, Outage: "dialok"}, "close-while-dialling")
 			add(&caseIn{Ups: sh[0], Downs: sh[1], Closes: 1, Outage: "guard"}, "close-before-reconnect-guard")
@@ -1325,6 +1470,17 @@ func main() {
 		var crq []string
 		for _, x := range res.CloseReqs {
 			crq = append(crq, fmt.Sprint(x))
+		}
+		for k, x := range res.RaceRets {
+			n := len(res.RaceRets)
+			switch {
+			case k < n-2 && x != 0 && x != 1:
+				direct = fmt.Sprintf("a WriteDataPoints in flight while Upstream.Close ran returned class %d (neither accepted nor stream-closed; 7 = never returned)", x)
+			case k == n-2 && x != 0 && x != 1:
+				direct = fmt.Sprintf("the Flush under way while Upstream.Close ran returned class %d", x)
+			case k == n-1 && x != 0:
+				direct = fmt.Sprintf("Upstream.Close with writers in flight returned class %d", x)
+			}
 		}
 		if res.PendingMeta == 7 || res.PendingMeta == 8 {
 			direct = fmt.Sprintf("the pending SendBaseTime did not return after Close (class %d)", res.PendingMeta)
